@@ -6,6 +6,7 @@ import Sx.Lemmas.ShadowCbs
 import Sx.Lemmas.LoopBound
 import Sx.Props.C19
 import Sx.Lemmas.CastFacts
+import Sx.Props.C12
 /-
   C08 — memory safety for all air data, chip states and buffer sizes.
 
@@ -319,11 +320,11 @@ example : memBad .oobPacket ∧ memBad .oobShadow ∧ memBad .oobCaller ∧ memB
 
 /-! ## Float → integer conversions (the class `castRange` that `C08_memory_safe` leaves out)
 
-    Three of the driver's conversions are proved defined for **every** input here; the remaining
-    ones (packet RSSI refinement, frequency error, bit rate, deviation, beacon timers) are covered
-    for their documented ranges by the C12 / C14 theorems (`C12_packet_rssi`, `C12_*_frequency_error`,
-    `C12_*_bitrate`, `C12_fdev`, `C14_every_interval`: each says `= some …`) and otherwise by the
-    sanitizer builds. -/
+    Six of the driver's conversions are proved defined for **every** input here (carrier encode and
+    decode, ppm correction, bit rate, deviation, packet RSSI refinement); the remaining ones
+    (frequency error decode, beacon timers) are covered for the register widths / documented
+    range by `C12_*_frequency_error` and `C14_every_interval` (each says `= some …`) and otherwise
+    by the sanitizer builds. -/
 
 /-- the class of undefined behaviour these theorems are about -/
 def castBad (u : UB) : Prop := u = .castRange
@@ -377,5 +378,131 @@ theorem C08_cast_ppm (err : Int) :
     obtain ⟨v, hv⟩ := cast_ppm _ h12.1 h12.2
     rw [hv]
     exact DM.SafeI_swrite _ _
+
+section casts2
+open Sx.Model DM
+
+theorem le_fin_of (x : F) (a : Rat) (h : F.le (.fin a) x = true) (b : Rat) (h2 : F.le x (.fin b) = true) :
+    ∃ q, x = .fin q ∧ a ≤ q ∧ q ≤ b := by
+  cases x with
+  | nan => simp [F.le] at h
+  | inf s => cases s <;> simp [F.le] at h h2
+  | fin q => simp only [F.le, decide_eq_true_eq] at h h2; exact ⟨q, rfl, h, h2⟩
+
+/-- **C08, `sx127x_fsk_ook_set_bitrate`.** For every binary32 argument (NaN, infinities, negative
+    and out-of-range values included — they are refused by the range check), every handle and every
+    answer: the conversions `(uint32_t)(32e6 * 16 / bitrate)` and `(uint16_t)(32e6f / bitrate)` are
+    only reached with values in range. -/
+theorem C08_cast_bitrate (bits : UInt32) :
+    SafeI castBad (fun _ => True) (fun _ => True) (fskOokSetBitrate (F.ofBits32 bits)) := by
+  unfold fskOokSetBitrate checkFskOok
+  apply SafeI_bind
+  · apply SafeI_bind SafeI_getH; intro h
+    split
+    · exact SafeI_fail _
+    · exact SafeI_pure _
+  intro _
+  apply SafeI_bind SafeI_getH; intro h
+  dsimp only
+  split
+  · split
+    · exact SafeI_fail _
+    · rename_i hr
+      have hr' : F.le (F.fin 1200) (F.ofBits32 bits) = true ∧ F.le (F.ofBits32 bits) (F.fin 300000) = true := by
+        simpa using hr
+      obtain ⟨q, hq, h1, h2⟩ := le_fin_of _ _ hr'.1 _ hr'.2
+      obtain ⟨v, hv, _⟩ := C12_fsk_bitrate_bits bits q hq h1 h2
+      rw [hv]
+      exact SafeI_bind (SafeI_swrite _ _) (fun _ => SafeI_swrite _ _)
+  · split
+    · split
+      · exact SafeI_fail _
+      · rename_i hr
+        have hr' : F.le (F.fin 1200) (F.ofBits32 bits) = true ∧ F.le (F.ofBits32 bits) (F.fin 25000) = true := by
+          simpa using hr
+        obtain ⟨q, hq, h1, h2⟩ := le_fin_of _ _ hr'.1 _ hr'.2
+        rw [hq]
+        obtain ⟨v, hv, _⟩ := C12_ook_bitrate q h1 h2
+        rw [hv]
+        exact SafeI_bind (SafeI_swrite _ _) (fun _ => SafeI_swrite _ _)
+    · exact SafeI_fail _
+
+/-- **C08, `sx127x_fsk_set_fdev`.** Likewise for `(uint16_t)(fdev / FSTEP)`. -/
+theorem C08_cast_fdev (bits : UInt32) :
+    SafeI castBad (fun _ => True) (fun _ => True) (fskSetFdev (F.ofBits32 bits)) := by
+  unfold fskSetFdev checkModulation
+  apply SafeI_bind
+  · apply SafeI_bind SafeI_getH; intro h
+    split
+    · exact SafeI_fail _
+    · exact SafeI_pure _
+  intro _
+  split
+  · exact SafeI_fail _
+  · rename_i hr
+    have hr' : F.le (F.fin 600) (F.ofBits32 bits) = true ∧ F.le (F.ofBits32 bits) (F.fin 200000) = true := by
+      simpa using hr
+    obtain ⟨q, hq, h1, h2⟩ := le_fin_of _ _ hr'.1 _ hr'.2
+    rw [hq]
+    obtain ⟨v, hv, _⟩ := C12_fdev q h1 h2
+    rw [hv]
+    exact SafeI_swrite _ _
+
+theorem snr_post (h : Handle) :
+    (loraRxGetPacketSnr h).fwp false (fun _ rh => ∀ snr, rh.1 = .ok snr → ∃ b : UInt8, snr = snrOf b) := by
+  unfold loraRxGetPacketSnr checkModulation
+  simp only [fwp_bind', fwp_getH, fwp_rread, fwp_pure, fwp_ite, fwp_fail]
+  split
+  · intro s e; cases e
+  · refine ⟨fun v s e => ⟨v, ?_⟩, fun c s e => by cases e⟩
+    cases e; rfl
+
+theorem s_snr_cast : SafeI castBad (fun _ => True) (fun _ => True) loraRxGetPacketSnr := by
+  unfold loraRxGetPacketSnr checkModulation
+  apply SafeI_bind
+  · apply SafeI_bind SafeI_getH; intro h
+    split
+    · exact SafeI_fail _
+    · exact SafeI_pure _
+  intro _
+  exact SafeI_bind (SafeI_rread _) (fun _ => SafeI_pure _)
+
+/-- **C08, `sx127x_rx_get_packet_rssi`.** For every RegPktRssiValue, RegPktSnrValue and carrier
+    (either port offset), every handle and answer: the refinement `(int16_t)(rssi + snr)` is
+    defined. -/
+theorem C08_cast_packet_rssi : SafeI castBad (fun _ => True) (fun _ => True) rxGetPacketRssi := by
+  unfold rxGetPacketRssi
+  apply SafeI_bind SafeI_getH; intro h
+  split
+  · apply SafeI_bind (SafeI_rread _); intro value
+    apply SafeI_bind C08_cast_get_frequency.2; intro frequency
+    dsimp only
+    refine SafeI_attempt_bind_post (fun r _ => ∀ snr, r = .ok snr → ∃ b : UInt8, snr = snrOf b) s_snr_cast snr_post ?_
+    intro r h' _ hq
+    cases r with
+    | error c => exact trivial
+    | ok snr =>
+      obtain ⟨b, hb⟩ := hq snr rfl
+      subst hb
+      dsimp only
+      split
+      · have hoff : ∀ off : Int, (off = Gen.RSSI_OFFSET_HF_PORT ∨ off = Gen.RSSI_OFFSET_LF_PORT) →
+            ((match rssiRefine ((value.toNat : Int) - off) (snrOf b) with
+              | some v => (pure v : DM Int)
+              | none => DM.ub .castRange) h').Safe castBad (fun _ => True) (fun _ => True) := by
+          intro off ho
+          rw [C12_packet_rssi value b off ho]
+          exact trivial
+        split
+        · exact hoff _ (Or.inr rfl)
+        · exact hoff _ (Or.inl rfl)
+      · exact trivial
+  · split
+    · split
+      · exact SafeI_fail _
+      · exact SafeI_bind (SafeI_modH _ (fun _ _ => trivial)) (fun _ => SafeI_pure _)
+    · exact SafeI_fail _
+
+end casts2
 
 end Sx
